@@ -108,6 +108,11 @@ pub fn g1_rep<R: Rng>(rng: &mut R, p: G1, tag: &str) -> G1 {
                 1 => -Fq::one(),
                 _ => rand_fq_nonzero(rng),
             };
+            // half of the time the rescaling starts from the normalised point, so that z is exactly lambda
+            let mut p = p;
+            if rng.gen() {
+                p.normalize();
+            }
             let l2 = l * l;
             G1::new(p.x() * l2, p.y() * l2 * l, p.z() * l)
         }
@@ -139,12 +144,20 @@ pub fn g2_rep<R: Rng>(rng: &mut R, p: G2, tag: &str) -> G2 {
             q
         }
         "S" => {
-            let l = match rng.gen_range(0..5) {
+            // lambda: 2, -1, i, a purely imaginary element, a real element, a general element
+            let l = match rng.gen_range(0..8) {
                 0 => Fq2::one() + Fq2::one(),
                 1 => -Fq2::one(),
                 2 => Fq2::new(Fq::zero(), Fq::one()),
+                3 => Fq2::new(Fq::zero(), rand_fq_nonzero(rng)),
+                4 => Fq2::new(rand_fq_nonzero(rng), Fq::zero()),
                 _ => rand_fq2_nonzero(rng),
             };
+            // half of the time the rescaling starts from the normalised point, so that z is exactly lambda
+            let mut p = p;
+            if rng.gen() {
+                p.normalize();
+            }
             let l2 = l * l;
             G2::new(p.x() * l2, p.y() * l2 * l, p.z() * l)
         }
